@@ -1,5 +1,8 @@
 """C13 -- the property tree behaves like a map/list/scalar document model."""
+import concurrent.futures
+
 import vlib
+from checks import aggregate
 from families import propdoc
 
 
@@ -12,6 +15,13 @@ def body(c):
         c.cov["evaluations"] = 1
         c.cov["distinct_nontrivial"] = 1
         return
+    # "the same through vnacal_property_* on global and per-calibration
+    # roots": the CalStore family (check C16) drives those wrappers and
+    # validates them against the PropDoc operators; its run is repeated here
+    # on behalf of C13, concurrently with the vnaproperty_* runs
+    pool = concurrent.futures.ThreadPoolExecutor(1)
+    side = pool.submit(aggregate._run_member,
+                       ("C16", "C13", c.tier, c.work, c.seed))
     propdoc.mc(c, c.tier)
     issues, stats = propdoc.run(c, exe, c.tier, c.seed)
     for it in issues:
@@ -29,6 +39,20 @@ def body(c):
     stats["episodes"] += dstats["episodes"]
     stats["distinct_nontrivial"] += dstats["desc_sequences"]
     c.add_part("propdoc_traces", stats)
+    member, d, tail = side.result()
+    if d is None:
+        c.machinery_errors.append("C16 --as C13 produced no result:\n" + tail)
+    else:
+        for m in d["machinery_errors"]:
+            c.machinery_errors.append("C16: " + m)
+        for i in d["issues"]:
+            c.issue(vlib.Issue(i["props"], i["signature"], i["what"],
+                               replay=i["replay"]))
+        c.add_part("vnacal_property via CalStore (C16 run)", {
+            "events": d["cov"].get("evaluations", 0),
+            "episodes": d["cov"].get("traces_validated_against_impl", 0)})
+        stats["events"] += d["cov"].get("evaluations", 0)
+        stats["episodes"] += d["cov"].get("traces_validated_against_impl", 0)
     c.cov["traces_validated_against_impl"] = stats["episodes"]
     c.cov["evaluations"] = stats["events"]
     c.cov["distinct_nontrivial"] = stats["distinct_nontrivial"]
